@@ -350,24 +350,62 @@ func RuleKChan(c *core.Ctx) {
 			continue
 		}
 		closed := false
-		for _, cl := range core.WithAnon(fn) {
-			if cl == fn {
-				continue
-			}
-			core.EachInstr(cl, func(ins ssa.Instruction) {
-				d, ok := ins.(*ssa.Defer)
-				if !ok {
-					return
+		closedBy := func(owner *ssa.Function, chVal ssa.Value) bool {
+			res := false
+			for _, cl := range core.WithAnon(owner) {
+				if cl == owner {
+					continue
 				}
-				if b, ok := d.Call.Value.(*ssa.Builtin); ok && b.Name() == "close" {
-					if _, root := containerRoot(d.Call.Args[0]); root == ssa.Value(ch) {
-						// the defer must be unconditional: in the entry block
-						if d.Block() == cl.Blocks[0] {
-							closed = true
+				core.EachInstr(cl, func(ins ssa.Instruction) {
+					d, ok := ins.(*ssa.Defer)
+					if !ok {
+						return
+					}
+					if b, ok := d.Call.Value.(*ssa.Builtin); ok && b.Name() == "close" {
+						if _, root := containerRoot(d.Call.Args[0]); root == chVal {
+							// the defer must be unconditional: in the entry block
+							if d.Block() == cl.Blocks[0] {
+								res = true
+							}
+						}
+					}
+				})
+			}
+			return res
+		}
+		closed = closedBy(fn, ch)
+		// or the channel is handed to a helper of the package whose worker closes it
+		if !closed && ch.Referrers() != nil {
+			for _, r := range *ch.Referrers() {
+				var call ssa.CallInstruction
+				switch x := r.(type) {
+				case ssa.CallInstruction:
+					call = x
+				case *ssa.ChangeType:
+					if x.Referrers() != nil {
+						for _, rr := range *x.Referrers() {
+							if cc, ok := rr.(ssa.CallInstruction); ok {
+								call = cc
+							}
 						}
 					}
 				}
-			})
+				if call == nil {
+					continue
+				}
+				callee := call.Common().StaticCallee()
+				if callee == nil || core.PkgPathOf(callee) != pkgCpr {
+					continue
+				}
+				if o := callee.Origin(); o != nil && len(callee.AnonFuncs) == 0 {
+					callee = o
+				}
+				for i, a := range call.Common().Args {
+					if (a == ssa.Value(ch) || core.Strip(a) == ssa.Value(ch)) && i < len(callee.Params) && closedBy(callee, callee.Params[i]) {
+						closed = true
+					}
+				}
+			}
 		}
 		if closed {
 			c.Ob(rule, key, ch.Pos(), core.FuncName(fn), core.Discharged, "deferred close in the entry block of the worker: the channel is closed on every exit, so consumers terminate")
